@@ -10,7 +10,8 @@ From Krrood Require Import Eql.Syntax Eql.MatchSpec Gen.Match.
 Import ListNotations.
 
 (* class model, given as data: issubclass, and per (owner class, attribute): WrappedField.is_iterable and type_endpoint *)
-Record cmodel : Type := { sub : cls -> cls -> bool; f_iter : cls -> nat -> bool; f_type : cls -> nat -> option cls }.
+Record cmodel : Type := { sub : cls -> cls -> bool; f_iter : cls -> nat -> bool; f_type : cls -> nat -> option cls;
+                          f_opt : cls -> nat -> bool (* WrappedField.is_optional *) }.
 
 Inductive path : Type :=
 | PRoot                          (* the variable let(T, domain) *)
@@ -67,7 +68,7 @@ Section Translate.
   (* AttributeAssignment.resolve up to the nested conditions: the node the nested match is resolved on,
      the HasType condition if any *)
   Definition type_filter (oc : cls) (a : nat) (t : option cls) : bool :=
-    let d := f_type C oc a in type_filter_needed (is_some d) (is_some t) (same_t t d) (sub_t t d) (sup_t t d).
+    let d := f_type C oc a in type_filter_needed (is_some d) (is_some t) (same_t t d) (sub_t t d) (sup_t t d) (f_opt C oc a).
   Definition nested_var (oc : cls) (p : path) (a : nat) (t : option cls) (kw : bool) : path :=
     if resolve_flatten (f_iter C oc a) kw (type_filter oc a t) then PFlat (PAttr p a) else PAttr p a.
   Definition nested_filter (oc : cls) (p : path) (a : nat) (t : option cls) (kw : bool) : list tcond :=
